@@ -534,11 +534,11 @@ def replace_by_string(context, string, regexp, repl, count=0):
 def escape_regex(string):
     """:yaql:escapeRegex
 
-    Returns string with all the characters except ASCII letters, numbers,
-    and '_' escaped.
+    Returns string with all the characters that have a special meaning in a
+    regular expression escaped (as re.escape does).
 
     :signature: escapeRegex(string)
-    :arg string: string to backslash all non-alphanumerics
+    :arg string: string to backslash all regex special characters
     :argType string: string
     :returnType: string
 
